@@ -16,8 +16,11 @@ compared bit for bit (both sides compute them in IEEE doubles).
 """
 from __future__ import annotations
 
+import contextlib
+import io
 import itertools
 import re
+import zlib
 import struct
 
 from ..core import Prop, Violation, import_repo, show_bool, hexs
@@ -121,6 +124,7 @@ class C18(Prop):
     extractors = ["eval-loops"]
     quick_budget = 2500
     thorough_budget = 60000
+    loud = False
     all_branches = ["heal:first", "heal:healed", "heal:degraded", "heal:degraded0", "heal:raise",
                     "swarm:success", "swarm:exhausted", "swarm:none", "swarm:raise", "swarm:collapse",
                     "swarm:steplimit", "tool:plain", "tool:final", "tool:noauto", "tool:answered", "tool:raise",
@@ -520,7 +524,7 @@ class C18(Prop):
             kw["max_retries"] = mr
         if decay is not None:
             kw["confidence_decay"] = decay
-        loop = self.cl.ChaperoneLoop(generator=make_gen(0), chaperone=Chap(0), schema=self.S, silent=True, **kw)
+        loop = self.cl.ChaperoneLoop(generator=make_gen(0), chaperone=Chap(0), schema=self.S, silent=not self.loud, **kw)
         box["make_gen"], box["Chap"] = make_gen, Chap
         if mr is None:
             box["mr"] = loop.max_retries
@@ -597,7 +601,8 @@ class C18(Prop):
         exc = None
         res = None
         try:
-            res = loop.heal("P<7>")
+            with contextlib.redirect_stdout(io.StringIO()):
+                res = loop.heal("P<7>")
         except Exception as e:   # noqa
             exc = e
 
@@ -648,7 +653,7 @@ class C18(Prop):
             kw["max_steps_per_worker"] = ms
         if mreg is not None:
             kw["max_regenerations"] = mreg
-        sw = self.rs.RegenerativeSwarm(worker_factory=make_fac(0), summarizer=make_summ(0), silent=True, **kw)
+        sw = self.rs.RegenerativeSwarm(worker_factory=make_fac(0), summarizer=make_summ(0), silent=not self.loud, **kw)
         return sw, box
 
     def _sset(self, st, t):
@@ -782,7 +787,8 @@ class C18(Prop):
         box["stale"] = []
         exc = res = None
         try:
-            res = sw.supervise("T<7>")
+            with contextlib.redirect_stdout(io.StringIO()):
+                res = sw.supervise("T<7>")
         except Exception as e:   # noqa
             exc = e
 
@@ -1116,6 +1122,9 @@ class C18(Prop):
 
     def run_impl(self, case):
         obs, infos = [], []
+        # a third of the cases run the loop and the swarm with silent=False (their console messages format the limits,
+        # the confidences and the hints; stdout goes to a sink): printing must not change anything
+        self.loud = zlib.crc32(" ".join(case["lines"]).encode()) % 3 == 0
         slots = [{"swarm": None}, {"swarm": None}]      # two sets of live objects side by side (`sel 0|1`)
         st = slots[0]
         for line in case["lines"]:
